@@ -24,7 +24,8 @@ func (r rapidSource) Int(label string, n int) int      { return rapid.IntRange(0
 
 // the events a server can send on its own
 var eventKinds = []string{"pong", "ack", "new-session", "bad-msg", "state-info", "all-info", "detailed-info", "new-detailed-info", "future-salts",
-	"result-unknown", "result-again", "error-unknown", "update", "updates-too-long", "unknown-ctor", "truncated", "empty-body", "empty-container", "nested-container", "raw-soup", "close"}
+	"result-unknown", "result-again", "error-unknown", "update", "updates-too-long", "unknown-ctor", "truncated", "empty-body", "empty-container", "nested-container", "raw-soup", "close",
+	"cut:result-unknown", "cut:pong", "cut:ack", "cut:bad-msg", "cut:state-info", "cut:update", "cut:nested-container", "cut:future-salts"}
 
 var wellFormedService = map[string]bool{"pong": true, "ack": true, "new-session": true, "update": true, "updates-too-long": true, "state-info": true, "all-info": true,
 	"detailed-info": true, "new-detailed-info": true}
@@ -36,6 +37,7 @@ type Event struct {
 	ContentRelated bool
 	Arg            int64
 	Body           []byte `json:",omitempty"`
+	Cut            int    `json:",omitempty"` // cut:<kind>: number of 4-byte words kept
 }
 
 func build(s scen.Source, events []Event) *scen.Scenario {
@@ -61,6 +63,15 @@ func build(s scen.Source, events []Event) *scen.Scenario {
 			steps = append(steps, scen.Step{Op: "answer", Container: ev.InContainer, Items: []scen.AnsItem{{Tag: 7, Again: true, Gzip: ev.Gzip}}})
 		default:
 			p := &scen.PushSpec{Kind: ev.Kind, Gzip: ev.Gzip, InContainer: ev.InContainer, ContentRelated: ev.ContentRelated, Arg: ev.Arg, Body: ev.Body}
+			if strings.HasPrefix(ev.Kind, "cut:") {
+				// a well-formed message of that kind cut short at a word boundary
+				whole := scen.PushBody(&scen.PushSpec{Kind: strings.TrimPrefix(ev.Kind, "cut:"), Arg: ev.Arg})
+				n := int(ev.Cut) * 4
+				if n > len(whole) {
+					n = len(whole) / 4 * 4
+				}
+				p = &scen.PushSpec{Kind: "raw", Body: whole[:n], InContainer: ev.InContainer, ContentRelated: ev.ContentRelated}
+			}
 			switch ev.Kind {
 			case "error-unknown":
 				p.Kind = "raw"
@@ -170,6 +181,10 @@ func genEvents(t *rapid.T) []Event {
 			ev.Body = rapid.SliceOfN(rapid.Byte(), 0, 40).Draw(t, "soup")
 			ev.Body = ev.Body[:len(ev.Body)/4*4]
 		}
+		if strings.HasPrefix(ev.Kind, "cut:") {
+			ev.Cut = rapid.IntRange(1, 6).Draw(t, "cut")
+			ev.Gzip = false
+		}
 		if ev.Kind == "empty-body" || ev.Kind == "truncated" || ev.Kind == "raw-soup" {
 			ev.Gzip = false // gzip_packed needs an object to pack
 		}
@@ -249,6 +264,10 @@ func TestC16(t *testing.T) {
 				}
 				ev := variant
 				ev.Kind, ev.Arg = k, int64(idx)<<8
+				if strings.HasPrefix(k, "cut:") {
+					ev.Gzip = false
+					ev.Cut = 1 + (idx % 5) // together with the four wrappings every short prefix occurs
+				}
 				if k == "empty-body" || k == "truncated" || k == "raw-soup" {
 					ev.Gzip = false
 				}
